@@ -417,8 +417,8 @@ def generate(seed, tier):
     n_tm = 240 if thorough else 60
     for i in range(n_tm):
         kind = "auto" if i % 2 == 0 else "full"
-        n = rng.randint(2, 5) if kind == "auto" else rng.randint(2, 4)
-        ops = ["tm a %s %d" % (kind, n), "tm c %s %d" % (kind, rng.randint(2, 4))]
+        n = rng.choice([1, 2, 2, 3, 3, 4, 5]) if kind == "auto" else rng.choice([1, 2, 2, 3, 3, 4])
+        ops = ["tm a %s %d" % (kind, n), "tm c %s %d" % (kind, rng.randint(1, 4))]
 
         def query(o):
             u = rng.random()
